@@ -51,7 +51,7 @@ def work(item):
         pass
     res.d["cuts"].append("numpy proxy in measurements.py: fromiter/array/zeros give object arrays when an element is symbolic")
     try:
-        {"freq": _w_freq, "stats": _w_stats, "counts": _w_counts, "parities": _w_parities}[kind](res, p)
+        {"freq": _w_freq, "stats": _w_stats, "counts": _w_counts, "parities": _w_parities, "parities-sym": _w_parities_sym}[kind](res, p)
     except ST.Inconclusive as e:
         res.ob(1)
         res.inconc(str(e))
@@ -264,6 +264,87 @@ def _w_parities(res, p):
         res.ob(0, 1, "ground-numeric")
 
 
+class _SymMultiset:
+    """a measurement list given abstractly: each distinct bitstring with a SYMBOLIC multiplicity. Only the stub of
+    collections.Counter can read it; any other use (len, iteration, indexing) has no concrete answer and makes the instance
+    inconclusive instead of guessing."""
+
+    def __init__(self, shots, counts):
+        self.shots, self.counts = list(shots), counts
+
+    def _no(self, *a, **k):
+        raise ST.Inconclusive("the code reads the measurement list directly (len / iteration / indexing); a symbolic multiset only supports Counter()")
+
+    __len__ = __iter__ = __getitem__ = __contains__ = _no
+
+
+def _counter_stub(real_counter):
+    def counter(x=(), *a, **k):
+        if isinstance(x, _SymMultiset):
+            return dict(zip([tuple(s) for s in x.shots], x.counts))  # Counter's contract: distinct element -> number of occurrences
+        return real_counter(x, *a, **k)
+
+    return counter
+
+
+def _w_parities_sym(res, p):
+    """get_parities_from_measurements on a multiset of shots whose multiplicities are symbolic integers >= 0 (total >= 1):
+    tallies [even, odd] per term and [equal, unequal] per pair of terms are the exact sums of multiplicities, for ALL counts."""
+    import numpy
+    import collections
+    from orquestra.quantum.measurements import parities as PA
+
+    w = p["width"]
+    keys = [tuple(int(b) for b in k) for k in itertools.product("01", repeat=w)]
+    if p.get("subset"):
+        keys = [k for i, k in enumerate(keys) if i in p["subset"]]
+    names = {f"n{i}": z3.Int(f"n{i}") for i in range(len(keys))}
+    base = [z >= 0 for z in names.values()] + [sum(names.values()) >= 1]
+    terms = p["terms"]
+    op = build_operator(terms, lambda c: c)
+    records = []
+    res.nontrivial()
+    res.d["cuts"].append("parities.py: collections.Counter(measurements) replaced by its contract on a symbolic multiset (distinct bitstring -> symbolic multiplicity); numpy proxy with object-array zeros")
+
+    def fn(ex):
+        counts = [ST.SV(names[f"n{i}"], True) for i in range(len(keys))]
+        shots = _SymMultiset(keys, counts)
+        par = PA.get_parities_from_measurements(shots, op)
+        if ST.poisoned(par.values) or ST.poisoned(par.correlations[0]):
+            raise ST.Inconclusive("NaN poison")
+        claims = []
+        for i, (qs, _) in enumerate(terms):
+            even = sum(names[f"n{k}"] for k, s in enumerate(keys) if eig(s, qs) == 1) if any(eig(s, qs) == 1 for s in keys) else z3.IntVal(0)
+            odd = sum(names.values()) - even
+            claims += [ST.zr_real(par.values[i][0]) == z3.ToReal(even), ST.zr_real(par.values[i][1]) == z3.ToReal(odd)]
+            for j, (qj, _) in enumerate(terms):
+                same = sum([names[f"n{k}"] for k, s in enumerate(keys) if eig(s, qs) == eig(s, qj)] or [z3.IntVal(0)])
+                got = par.correlations[0][i, j]
+                claims += [ST.zr_real(got[0]) == z3.ToReal(same), ST.zr_real(got[1]) == z3.ToReal(sum(names.values()) - same)]
+        records.append(("parity-tallies",) + ex.prove(z3.And(*claims)))
+        records.append(("arguments-unchanged",) + ex.prove(z3.BoolVal(shots.shots == keys and len(shots.counts) == len(counts) and all(a is b for a, b in zip(shots.counts, counts)))))
+        return par
+
+    with ST.patched((PA, "np", ZerosObjProxy(numpy)), (PA, "Counter", _counter_stub(collections.Counter))):
+        ex = ST.Explorer(base=base, timeout_ms=8000)
+        outs = ex.run(fn)
+    _finish(res, ex, outs, records, names, p)
+    res.sample({"parities over": len(keys), "terms": terms})
+
+
+def parities_sym_replay(p, vals):
+    keys = [tuple(int(b) for b in k) for k in itertools.product("01", repeat=p["width"])]
+    if p.get("subset"):
+        keys = [k for i, k in enumerate(keys) if i in p["subset"]]
+    shots = []
+    for i, k in enumerate(keys):
+        shots += [k] * int(vals.get(f"n{i}", 1))
+    if not shots:
+        return False, "empty multiset"
+    bad = parities_bad(shots, [tuple(t) for t in p["terms"]], build_operator(p["terms"], lambda c: c))
+    return bool(bad), bad or "ok"
+
+
 def parities_bad(shots, terms, op):
     from orquestra.quantum.measurements import get_parities_from_measurements
 
@@ -353,6 +434,13 @@ def instances(tier, seed):
             items.append(("stats", {"shots": [wshot(w, o) for o in ones_list], "terms": [[qs, c] for qs, c in t], "bessel": bessel, "bare": bare, "label": f"wide register w={w} shots with ones at {ones_list} op={[(qs, c) for qs, c in t]} bessel={bessel}"}))
     for keys in (["0", "1"], ["00", "01", "11"], ["101", "010"], ["00", "01", "10", "11"] if tier == "thorough" else ["10", "11"]):
         items.append(("counts", {"keys": keys, "label": f"counts over {keys}"}))
+    # parity tallies with symbolic multiplicities of every outcome
+    for w in (1, 2, 3):
+        for oi, terms in enumerate(OPERATORS.get(w, [[([0], "k0")], [([], "k0"), ([0], "k1")]])):
+            t = [[qs, (0.5 * (i + 1) if isinstance(c, str) else c)] for i, (qs, c) in enumerate(terms)]
+            items.append(("parities-sym", {"width": w, "terms": t, "label": f"parity tallies, all {2**w} outcomes with symbolic multiplicities, op#{oi}w{w}"}))
+    items.append(("parities-sym", {"width": 3, "subset": [1, 4, 6], "terms": [[[2, 0], 1.0], [[1], 2.0]], "label": "parity tallies, outcomes 001,100,110 with symbolic multiplicities"}))
+    items.append(("parities-sym", {"width": 10, "subset": [1, 2, 512, 513, 1023], "terms": [[[9], 1.0], [[0, 9], 2.0], [[8], 0.5]], "label": "parity tallies, 5 outcomes of a 10-qubit register with symbolic multiplicities"}))
     for w in (2, 3):
         outcomes = list(itertools.product((0, 1), repeat=w))
         for n in (1, 2, 3, 4):
@@ -389,6 +477,8 @@ def replay(data):
     vals = inp.get("values") or {}
     p = {k: v for k, v in inp.items() if k not in ("clause", "values")}
     try:
+        if "terms" in p and "width" in p and "shots" not in p:
+            return parities_sym_replay(p, vals)
         if "width" in p:
             from orquestra.quantum.measurements.measurements import get_expectation_value_from_frequencies
 
